@@ -416,7 +416,8 @@ pub fn finish(ctx: &Ctx, mut out: Outcome, fin: Finish<'_>) -> i32 {
 
     let mut inconclusive = out.inconclusive.clone();
     for (what, got, floor) in &fin.floors {
-        if got < floor {
+        // coverage floors describe a whole run, not the replay of one case
+        if ctx.only.is_none() && got < floor {
             inconclusive.push(format!("coverage floor not reached: {what}: {got} < {floor}"));
         }
     }
